@@ -121,7 +121,7 @@ function RPF(kind, key, thunk){
   };
 }
 // scripted reviver
-function RVF(kind, key, sib){
+function RVF(kind, key, sib, thunk){
   return function(k, v){
     KEYCHK(k);
     LOG.push({f:"rv", k:UNITS(String(k)), v:ENCV(v), h:ENCV(this)});
@@ -133,6 +133,11 @@ function RVF(kind, key, sib){
     if (kind === "delsib") { if (k === key) delete this[sib]; return v; }
     if (kind === "addsib") { if (k === key) this[sib] = 9; return v; }
     if (kind === "throwkey") { if (k === key) throw "RV"; return v; }
+    // revivers that restructure their holder during the walk; "gone" marks a vanished value
+    var isArr = Object.prototype.toString.call(this) === "[object Array]";
+    if (kind === "setlen") { if (k === key && isArr) this.length = sib; return v === undefined ? "gone" : v; }
+    if (kind === "push") { if (k === key && isArr) this.push(thunk()); return v === undefined ? "gone" : v; }
+    if (kind === "setel") { if (k === key) this[sib] = thunk(); return v === undefined ? "gone" : v; }
     throw new Error("RVF kind");
   };
 }
@@ -247,10 +252,11 @@ func same(a string, b json.RawMessage) bool {
 }
 
 // jrec is one line of the judge's input (trace.ndjson).
-//   kind "text": got = observed text, want = prescribed text followed by the texts permitted under open findings
-//   kind "num" : n = a double, got = observed JSON.stringify(n), back = projection of JSON.parse(got) observed
-//   kind "str" : s = a string, got, back likewise
-//   kind "tree": v = a JSON value tree, gap = the space argument, got = JSON.stringify(v, null, gap), back likewise
+//
+//	kind "text": got = observed text, want = prescribed text followed by the texts permitted under open findings
+//	kind "num" : n = a double, got = observed JSON.stringify(n), back = projection of JSON.parse(got) observed
+//	kind "str" : s = a string, got, back likewise
+//	kind "tree": v = a JSON value tree, gap = the space argument, got = JSON.stringify(v, null, gap), back likewise
 type jrec struct {
 	ID   int             `json:"id"`
 	Kind string          `json:"kind"`
@@ -677,18 +683,28 @@ func (k *checker) randomRecords() error {
 			rec.Kind, rec.N = "num", &nn
 		} else {
 			units := make([]int, rng.Intn(7))
-			for j := range units {
-				switch rng.Intn(6) {
-				case 0:
-					units[j] = rng.Intn(32)
-				case 1:
-					units[j] = []int{34, 92, 47, 60, 62, 38, 39, 127, 8232, 8233, 65279, 160}[rng.Intn(12)]
-				case 2:
-					units[j] = 0x80 + rng.Intn(0xd800-0x80)
-				case 3:
-					units[j] = 0xe000 + rng.Intn(0x1ffe)
-				default:
-					units[j] = 32 + rng.Intn(95)
+			if rng.Intn(3) == 0 { // escape look-alikes: backslashes, u, hex digits, quotes, HTML characters
+				toks := []string{"\\", "\\", "u", "u003c", "u003e", "u0026", "u0022", "u005c", "u2028", "u000a", "003C", "\"", "<", ">", "&", "n", "/", "0", "c", "\n", "\u2028", "\u2029", "\b"}
+				units = units[:0]
+				for t := rng.Intn(6); t > 0; t-- {
+					for _, r := range toks[rng.Intn(len(toks))] {
+						units = append(units, int(r))
+					}
+				}
+			} else {
+				for j := range units {
+					switch rng.Intn(6) {
+					case 0:
+						units[j] = rng.Intn(32)
+					case 1:
+						units[j] = []int{34, 92, 47, 60, 62, 38, 39, 127, 8232, 8233, 65279, 160}[rng.Intn(12)]
+					case 2:
+						units[j] = 0x80 + rng.Intn(0xd800-0x80)
+					case 3:
+						units[j] = 0xe000 + rng.Intn(0x1ffe)
+					default:
+						units[j] = 32 + rng.Intn(95)
+					}
 				}
 			}
 			lit = jsx.StrLit(units)
